@@ -553,10 +553,47 @@ guarded_by IpfsDHT.modeLk : IpfsDHT.mode
 directive callers setMode : handleLocalReachabilityChangedEvent
 directive callers moveToClientMode : setMode
 directive callers moveToServerMode : setMode, New
-func New(ctx context.Context, h host.Host, options ...Option) (*IpfsDHT, error)
+# C14: once makeDHT has started the provider GC (and later StartGC the value
+# sweeper), every error return tears the half-built DHT down again through the
+# deferred Close - no component New started is left running.
+func New(h host.Host, options ...Option) (_ *IpfsDHT, err error)
   constructor
+  props C14
+  ghostvar $made bool = false
+  ghostvar $torn bool = false
+  modifies *
+  ensures [error-tears-down-what-was-started] imp(err != nil && $made, $torn)
+  ghost at call(makeDHT): $made = ($ret1 == nil)
+  ghost at call(Close): $torn = true
 func makeDHT(h host.Host, cfg dhtcfg.Config) (*IpfsDHT, error)
   constructor
+
+# C14: Close cancels the DHT's context first, waits for every goroutine of its
+# wait group, then closes the refresh manager and each store that exists -
+# one closer goroutine each, each reporting exactly once - and returns only
+# after it has received exactly as many reports as it started closers.
+func (dht *IpfsDHT) Close() error
+  props C14
+  ghostvar $spawned int = 0
+  ghostvar $recv int = 0
+  ghostvar $cancelled bool = false
+  ghostvar $n int = 0
+  modifies *
+  ensures [waits-for-own-goroutines] tagged("wgwait:dht.wg")
+  ensures [internal-awaits-every-closer] $recv == $spawned && $spawned == $n && $n >= 1
+  loop 0 invariant $spawned == $key && $recv == 0 && $n == len(closes) && $n >= 1
+  loop 1 invariant $recv == $key && $spawned == $n && $n == len(closes) && $n >= 1
+  ghost at call(cancel): $cancelled = true
+  ghost at before call(Wait): assert($cancelled)
+  ghost at assign(errc): $n = len(closes); assert(tagged("wgwait:dht.wg") && len(closes) == 1 + ite(dht.providerStore != nil, 1, 0) + ite(dht.valueStore != nil, 1, 0))
+  ghost at go(func): $spawned = $spawned + 1
+  ghost at recv(errc): $recv = $recv + 1
+
+funclit 0 in (dht *IpfsDHT) Close() error
+  props C14
+  ghostvar $sent int = 0
+  ensures [internal-one-report] $sent == 1
+  ghost at send(errc): $sent = $sent + 1
 directive callers handleLocalReachabilityChangedEvent : startNetworkSubscriber
 immutable "io.EOF"
 
